@@ -77,7 +77,10 @@ def main():
             continue
         d = os.path.join(SEEDED, name)
         meta = json.load(open(os.path.join(d, "meta.json")))
-        props = [meta["property"]] + [p for p in also if p != meta["property"]]
+        # "judged_by": the author aimed at one property, but what the change breaks is another property's subject
+        # (explained in meta.json and DESIGN.md section 10); the check of that property is the one that has to fire
+        main_prop = meta.get("judged_by", meta["property"])
+        props = [main_prop] + [p for p in also if p != main_prop]
         r = sh(["git", "-C", REPO, "apply", os.path.join(d, "patch.diff")])
         if r.returncode != 0:
             print(f"{name}: patch does not apply: {r.stderr.strip()[:200]}")
@@ -89,7 +92,7 @@ def main():
                 c = sh([os.path.join(CHECK_VERIF, "check"), prop, "--tier", tier], cwd=CHECK_VERIF, env=ENV)
                 sigs = sorted({line.split("]")[1].split(":")[0].strip() for line in c.stdout.splitlines() if line.startswith("  [")})
                 caught = c.returncode == 1 and "VIOLATION property=" + prop in c.stdout
-                key = name if prop == meta["property"] else f"{name}@{prop}"
+                key = name if prop == main_prop else f"{name}@{prop}"
                 results[key] = {"property": prop, "tier": tier, "exit": c.returncode, "caught": caught, "signatures": sigs,
                                 "wall_s": round(time.time() - t0, 1)}
                 print(f"{key}: {'CAUGHT' if caught else 'MISSED'} exit={c.returncode} {sigs[:3]} ({time.time() - t0:.0f}s)")
